@@ -48,6 +48,40 @@ def _is_range_full(f, op):
     return r[0] == 'agg' and str(r[2]['rhs']['kind'].get('adt', '')).endswith('ops::RangeFull')
 
 
+MUTATORS = re.compile(r'::(push|push_back|push_front|insert|remove|swap_remove|pop|pop_back|pop_front|clear|truncate|retain|retain_mut|drain|dedup\w*|split_off|append|extend|extend_from_slice|resize\w*|sort\w*|reverse|rotate_\w+|swap)$')
+
+
+def _index_from_position(f, t):
+    """`v[i]` where i is the Some payload of `v.iter().position(..)` / `rposition` over the same container (same field
+    of the same root) and nothing that changes the container's length or order is called in between: in bounds by
+    construction, not a panic site."""
+    from mirlib import trace, trace_place
+    r = trace(f, t['args'][1])
+    if r[0] != 'place' or not any(p['k'] == 'downcast' and str(p.get('variant', p.get('name', ''))).endswith('Some') for p in r[1]['proj']):
+        return False
+    src = trace(f, dict(local=r[1]['local'], proj=[]))
+    if src[0] != 'call' or not re.search(r'Iterator>?::r?position$', f.callee_name(src[2])):
+        return False
+    pos_bb = src[1]
+    cont = trace_place(f, t['args'][0])
+    if cont is None or not cont[1]:
+        return False
+    recv = f.slice(src[2]['args'][0])
+    same = any(fl and tuple(fl)[:len(cont[1])] == tuple(cont[1]) for _l, fl in recv.fields)
+    if not same:
+        return False
+    idx_bb = [bi for bi, tt in f.calls() if tt is t]
+    if not idx_bb or not f.dominates_block(pos_bb, idx_bb[0]):
+        return False
+    after = f.reachable(pos_bb)
+    for bi, tt in f.calls():
+        if bi in after and bi != pos_bb and idx_bb[0] in f.reachable(bi) and MUTATORS.search(f.callee_name(tt)) and tt['args']:
+            c2 = trace_place(f, tt['args'][0])
+            if c2 is not None and c2[1] and tuple(c2[1])[:len(cont[1])] == tuple(cont[1]):
+                return False
+    return True
+
+
 def sites(crate, roots):
     """list of (fn, kind, what, line)"""
     # formatting impls are called through the function pointers inside fmt::Arguments (format!, to_string, write!), which
@@ -62,6 +96,8 @@ def sites(crate, roots):
             if PANIC_CALLS.search(nm):
                 # `v[..]` (indexing with RangeFull) cannot fail: the whole slice
                 if re.search(r'Index(Mut)?<.*>>::index(_mut)?$', nm) and len(t['args']) == 2 and _is_range_full(f, t['args'][1]):
+                    continue
+                if re.search(r'Index(Mut)?<.*>>::index(_mut)?$', nm) and len(t['args']) == 2 and _index_from_position(f, t):
                     continue
                 out.append((f, 'call', clean(nm), t['line']))
         for bi in sorted(f.live_blocks()):
